@@ -12,12 +12,29 @@ import numpy as np
 import dune.common as dc
 
 _classes = {}
+_float_mode = [False]          # `f32` scripts: Dune::FieldVector<float,n> (another instance of the registerFieldVector template)
 
 
-def cls(n):
+def cls_float(n):
+    key = ("f", n)
+    if key not in _classes:
+        C = dc._loadVec([], "Dune::FieldVector< float ," + str(n) + " >").FieldVector
+        # what dune.common.FieldVector() does to the classes it generates
+        if "_getitem" not in C.__dict__:
+            setattr(C, "_getitem", C.__getitem__); setattr(C, "__getitem__", dc._fieldVectorGetItem)
+            setattr(C, "_setitem", C.__setitem__); setattr(C, "__setitem__", dc._fieldVectorSetItem)
+        _classes[key] = C
+    return _classes[key]
+
+
+def cls_double(n):
     if n not in _classes:
         _classes[n] = type(dc.FieldVector([0.0] * n))
     return _classes[n]
+
+
+def cls(n):
+    return cls_float(n) if _float_mode[0] else cls_double(n)
 
 
 def fr(x):
@@ -93,6 +110,8 @@ def vals_of(o):
 
 
 def objstr(o):
+    if o is None:
+        return "x"                       # dropped register
     if is_dv(o):
         return "d[" + ",".join(fr(x) for x in vals_of(o)) + "]"
     if is_fv(o):
@@ -162,6 +181,8 @@ def construct(n, kind, vals):
         return C(np.array([int(v) for v in vals], dtype=np.int64))
     if kind == "npf32":
         return C(np.array([float(v) for v in vals], dtype=np.float32))
+    if kind == "nprev32":
+        return C(np.array([float(v) for v in reversed(vals)], dtype=np.float32)[::-1])
     if kind == "np2d":
         return C(np.array([[float(v) for v in vals]] * 2, dtype=np.float64))
     if kind == "bytearray":
@@ -220,7 +241,11 @@ def npv_step(R, t):
         return objstr(a)
     if op == "bad2d":
         return "s:" + fr(npv(np.zeros((2, 2)), 0))
+    if op == "newv":                     # a FieldVector; its buffer view (op `view`) is what the NumPyVector wraps
+        return result(R, construct(int(t[1]), t[2], qlist(t[3])))
     x = R[int(t[1])]
+    if op == "view":
+        return result(R, np.array(x, copy=False))
     if op == "slice":
         return result(R, x[slice(optz(t[2]), optz(t[3]), optz(t[4]))])
     if op == "getc": return "s:" + fr(npv(x, 10, int(t[2])))
@@ -239,7 +264,8 @@ def npv_step(R, t):
     return "UNKNOWN-OP"
 
 
-MUTATING = {"set", "iadd", "isub", "iaddl", "imuls", "idivs", "iadds", "isubs", "assign", "setslice", "isubl", "assignl", "setnp"}
+MUTATING = {"set", "iadd", "isub", "iaddl", "imuls", "idivs", "iadds", "isubs", "assign", "setslice", "isubl", "assignl", "setnp",
+            "setslicefrom", "arriadd", "arrisub", "arrimuls", "arriadds"}
 
 
 def result(R, res, operand=None):
@@ -272,6 +298,25 @@ def step(R, t, dyn=None):
         return result(R, construct(int(t[1]), t[2], qlist(t[3])))
     if op == "newfrom":
         return result(R, cls(int(t[1]))(R[int(t[2])]))
+    if op == "crossbad":                 # the double class from a float object (buffer of another element type)
+        return result(R, cls_double(len(R[int(t[1])]))(R[int(t[1])]))
+    if op == "drop":                     # the script drops its reference; views / results keep whatever they need alive
+        import gc
+        R[int(t[1])] = None
+        gc.collect()
+        return "ok"
+    if op == "setslicefrom":
+        R[int(t[1])][slice(optz(t[2]), optz(t[3]), optz(t[4]))] = R[int(t[5])]
+        return "ok"
+    if op in ("arriadd", "arrisub", "arradd"):
+        a, y = R[int(t[1])], R[int(t[2])]
+        assert isinstance(a, np.ndarray)
+        if op == "arradd": return result(R, a + y)
+        return "ok" if (operator.iadd(a, y) if op == "arriadd" else operator.isub(a, y)) is a else "!notinplace"
+    if op in ("arrimuls", "arriadds"):
+        a, sc = R[int(t[1])], float(q(t[2]))
+        assert isinstance(a, np.ndarray)
+        return "ok" if (operator.imul(a, sc) if op == "arrimuls" else operator.iadd(a, sc)) is a else "!notinplace"
     x = R[r]
     if op == "view":
         return result(R, np.array(x, copy=False))
@@ -298,6 +343,10 @@ def step(R, t, dyn=None):
         return "ok"
     if op == "ellipsis":
         return result(R, x[...])
+    if op == "bufinfo32":
+        mv = memoryview(x)
+        good = (mv.format, mv.ndim, mv.readonly, mv.itemsize) == ("f", 1, False, 4) and (mv.strides == (4,) or mv.shape[0] <= 1)
+        return ("i:%d" % mv.shape[0]) if good else "?buffer(%s,%s,%s,%s)" % (mv.format, mv.shape, mv.strides, mv.readonly)
     if op == "bufinfo":
         mv = memoryview(x)
         # (for one entry the exported stride is &self[1] - &self[0] = 0: irrelevant for a single element, not observed)
@@ -431,6 +480,29 @@ def tv_case(line):
         out.append("bad%d:%s" % (i, guard(setbad)))
     cp.assign(tv)
     out.append("assign=" + ",".join(guard(lambda: tv_show(cp[i])) for i in range(n)))
+    tv.assign(tv)                          # self-assignment
+    out.append("self=" + ",".join(guard(lambda: tv_show(tv[i])) for i in range(n)))
+    ty = lambda e: ("v", len(e)) if is_fv(e) else type(e).__name__
+    pair = next(((a, b) for a in range(n) for b in range(a + 1, n) if ty(tup[a]) == ty(tup[b])), None)
+    if pair is None:
+        out.append("xfer=-")
+    else:                                  # an element of one tuple vector assigned into a slot of another
+        def xfer():
+            cp[pair[0]] = tv[pair[1]]
+            return ",".join(tv_show(cp[i]) for i in range(n))
+        out.append("xfer=" + guard(xfer))
+    import gc
+    k0 = next((k for k, e in enumerate(tup) if is_fv(e)), 0)
+    def keep():                            # an element reference outlives the Python handle of its tuple vector
+        t2 = dc.TupleVector(tv_elems(line))
+        e = t2[k0]
+        del t2
+        gc.collect()
+        # allocate objects of the same shapes so that storage freed by mistake is reused (makes a dangling reference visible)
+        junk = [dc.TupleVector(tuple(dc.FieldVector([x + 1000 for x in vals_of(el)]) if is_fv(el) else el + 1000 for el in tv_elems(line))) for _ in range(8)]
+        junk += [dc.FieldVector([1000.0 + k] * max(1, len(vals_of(e)))) for k in range(32)] if is_fv(e) else []
+        return tv_show(e)
+    out.append("keep=" + guard(keep))
     j = next((k for k, e in enumerate(tup) if is_fv(e)), None)
     if j is None:
         out.append("alias=-")
@@ -448,6 +520,9 @@ def run_case(line):
         return tv_case(line)
     R, toks = [], []
     is_npv = line.startswith("npv")
+    _float_mode[0] = line.startswith("f32")
+    if _float_mode[0]:
+        line = line.split(";", 1)[1]
     dyn = None
     if line.startswith("dyn"):
         dyn = dyn_class(line.startswith("dynj"))
@@ -485,6 +560,8 @@ def main():
                 npv(np.zeros(2), 0)
             elif a == "dynj":
                 dyn_class(True)
+            elif a.startswith("f32:"):
+                cls_float(int(a[4:]))
             elif a.startswith("tv"):
                 dc.TupleVector(tv_elems(a))
             else:
